@@ -281,7 +281,8 @@ theorem idLib_lawful : idLib.Lawful := fun _ _ _ => rfl
 def Holds (cfg : SdkValues.Cfg) : Prop :=
   ∀ (k : Kind) (om : Bool) (v : Val), WellTyped k v → k ≠ .array → (∀ s, v ≠ .str false s) →
     (∀ s n, v = .time s n → inRange (true, 64) s) →
-    valueRT cfg idLib k om v = .ok v ∧ bodyRT cfg k om v = .ok v
+    valueRT cfg idLib k om v = .ok v ∧ bodyRT cfg k om v = .ok v ∧
+    (∀ v1, WellTyped k v1 → valueUpdRT cfg idLib k om v1 v = valueRT cfg idLib k om v)   -- an overwrite reads back the LAST value
 
 /-- values for which the code as it is round-trips exactly through the value slot -/
 def ExactValue (cfg : SdkValues.Cfg) (lib : Lib) (k : Kind) (om : Bool) : Val → Prop
@@ -498,7 +499,8 @@ def shipped : SdkValues.Cfg :=
     dec := [(.stringVal, [.str]), (.uint8Val, [.u8]), (.uint16Val, [.u16]), (.uint32Val, [.u32]), (.uint64Val, [.u64, .uint]),
             (.int8Val, [.i8]), (.int16Val, [.i16]), (.int32Val, [.i32]), (.int64Val, [.i64, .int, .time]),
             (.float32Val, [.f32]), (.float64Val, [.f64]), (.boolVal, [.bool]), (.bytesVal, [.bytes, .slice, .map, .ptr])],
-    timeAsUnixSeconds := true, structValueEncoded := false, bodySkipsNil := false, emptyLenZero := true, emptyNegZero := true }
+    timeAsUnixSeconds := true, structValueEncoded := false, bodySkipsNil := false, emptyLenZero := true, emptyNegZero := true,
+    voidClearsContent := false }
 
 example : tableOK shipped = true := by decide
 
@@ -543,13 +545,15 @@ example : valueRT shipped gobLib .array false (.stru 1) = .err ∧ valueRT shipp
 /-! ### the full statement for repaired flags, its negation for each flag -/
 
 def flagsGood (cfg : SdkValues.Cfg) : Bool :=
-  !cfg.timeAsUnixSeconds && cfg.structValueEncoded && cfg.bodySkipsNil && !cfg.emptyLenZero && !cfg.emptyNegZero
+  !cfg.timeAsUnixSeconds && cfg.structValueEncoded && cfg.bodySkipsNil && !cfg.emptyLenZero && !cfg.emptyNegZero &&
+  cfg.voidClearsContent
 
 theorem holds_of_good (cfg : SdkValues.Cfg) (ht : tableOK cfg = true) (hf : flagsGood cfg = true) : Holds cfg := by
   simp only [flagsGood, Bool.and_eq_true, Bool.not_eq_true'] at hf
-  obtain ⟨⟨⟨⟨h1, h2⟩, h3⟩, h4⟩, h5⟩ := hf
+  obtain ⟨⟨⟨⟨⟨h1, h2⟩, h3⟩, h4⟩, h5⟩, h6⟩ := hf
   intro k om v hw hka hs ht64
-  refine ⟨convert_roundtrip cfg idLib ht k om v hw ?_, body_roundtrip cfg k om v hw hs ?_⟩
+  refine ⟨convert_roundtrip cfg idLib ht k om v hw ?_, body_roundtrip cfg k om v hw hs ?_,
+    fun v1 _ => by simp [valueUpdRT, h6]⟩
   · cases v with
     | str valid s => cases valid with
       | true => rfl
@@ -585,18 +589,34 @@ theorem refutes_struct_dropped (cfg : SdkValues.Cfg) (h : cfg.structValueEncoded
 
 theorem refutes_body_nil (cfg : SdkValues.Cfg) (h : cfg.bodySkipsNil = false) : ¬ Holds cfg := by
   intro hh
-  have := (hh .slice false (.cont none) (Or.inl rfl) (by decide) (by intro s; simp) (by intro s n e; simp at e)).2
+  have := (hh .slice false (.cont none) (Or.inl rfl) (by decide) (by intro s; simp) (by intro s n e; simp at e)).2.1
   simp [bodyRT, h] at this
 
 theorem refutes_empty_len_zero (cfg : SdkValues.Cfg) (h : cfg.emptyLenZero = true) : ¬ Holds cfg := by
   intro hh
-  have := (hh .slice true (.cont (some [])) (Or.inl rfl) (by decide) (by intro s; simp) (by intro s n e; simp at e)).2
+  have := (hh .slice true (.cont (some [])) (Or.inl rfl) (by decide) (by intro s; simp) (by intro s n e; simp at e)).2.1
   simp [bodyRT, isEmpty, h, zero] at this
 
 theorem refutes_empty_neg_zero (cfg : SdkValues.Cfg) (h : cfg.emptyNegZero = true) : ¬ Holds cfg := by
   intro hh
-  have := (hh .f64 true (.flt (2 ^ 63)) (Or.inr ⟨rfl, by decide⟩) (by decide) (by intro s; simp) (by intro s n e; simp at e)).2
+  have := (hh .f64 true (.flt (2 ^ 63)) (Or.inr ⟨rfl, by decide⟩) (by decide) (by intro s; simp) (by intro s n e; simp at e)).2.1
   simp [bodyRT, isEmpty, h, zero, signBit] at this
+
+/-- Overwriting a stored value with nothing (nil pointer here; also nil []byte, zero time, or a zero value
+    under omitempty) leaves the OLD value in the treasure: the server's SetContentVoid does not clear a
+    typed content. -/
+theorem void_overwrite_keeps_old_value :
+    valueUpdRT shipped gobLib .ptr false (.cont (some [2])) (.cont none) = .ok (.cont (some [2])) ∧
+    valueUpdRT shipped gobLib .u8 true (.num 255) (.num 0) = .ok (.num 255) := by decide
+
+theorem refutes_void_keeps (cfg : SdkValues.Cfg) (ht : tableOK cfg = true) (h : cfg.voidClearsContent = false) : ¬ Holds cfg := by
+  intro hh
+  have hv := hh .ptr false (.cont none) (Or.inr (Or.inr ⟨rfl, by simp⟩)) (by decide) (by intro s; simp)
+    (by intro s n e; simp at e)
+  have h3 := hv.2.2 (.cont (some [2])) (Or.inr (Or.inr ⟨rfl, by simp⟩))
+  simp only [tableOK, Bool.and_eq_true] at ht
+  have hPtr := ht.2
+  simp [valueUpdRT, sendsVoid, isEmpty, h, valueRT, hPtr, idLib] at h3
 
 end Values
 /-! ### Decision over the extracted facts -/
@@ -629,6 +649,7 @@ structure Facts where
   bodySkipsNil : Tri
   emptyLenZero : Tri
   emptyNegZero : Tri
+  voidClearsContent : Tri
   deriving Repr
 
 def cfgOf (f : Facts) : Cfg :=
@@ -637,7 +658,7 @@ def cfgOf (f : Facts) : Cfg :=
 
 def valCfgOf (f : Facts) : SdkValues.Cfg :=
   ⟨f.valEnc, f.valStore, f.valRead, f.valDec, f.timeAsUnixSeconds.isYes, f.structValueEncoded.isYes,
-   f.bodySkipsNil.isYes, f.emptyLenZero.isYes, f.emptyNegZero.isYes⟩
+   f.bodySkipsNil.isYes, f.emptyLenZero.isYes, f.emptyNegZero.isYes, f.voidClearsContent.isYes⟩
 
 /-- The full-strength statement: tags AND values. -/
 def Holds (f : Facts) : Prop := TagHolds (cfgOf f) ∧ Values.Holds (valCfgOf f)
@@ -647,7 +668,7 @@ def hasUnknownPred (c : Cfg) : Bool :=
 
 def valFlagsKnown (f : Facts) : Bool :=
   f.valTablesRecognised == .yes && f.timeAsUnixSeconds != .unknown && f.structValueEncoded != .unknown &&
-  f.bodySkipsNil != .unknown && f.emptyLenZero != .unknown && f.emptyNegZero != .unknown
+  f.bodySkipsNil != .unknown && f.emptyLenZero != .unknown && f.emptyNegZero != .unknown && f.voidClearsContent != .unknown
 
 def tagFindings (c : Cfg) : List String :=
   (if c.enc.noContains && c.dec.noContains then [] else ["C22-substring-tag-match"]) ++
@@ -657,7 +678,8 @@ def valFindings (v : SdkValues.Cfg) : List String :=
   (if v.bodySkipsNil then [] else ["C22-nil-body-field-unreadable"]) ++
   (if v.timeAsUnixSeconds then ["C22-value-time-truncated"] else []) ++
   (if v.structValueEncoded then [] else ["C22-struct-value-dropped"]) ++
-  (if v.emptyLenZero || v.emptyNegZero then ["C22-omitempty-normalises"] else [])
+  (if v.emptyLenZero || v.emptyNegZero then ["C22-omitempty-normalises"] else []) ++
+  (if v.voidClearsContent then [] else ["C22-void-overwrite-keeps-old-value"])
 
 def classify (f : Facts) : Verdict :=
   if f.loopOrder != .yes || f.shapeUsesHead != .yes then .undetermined "loop structure of the SDK conversions not recognised"
@@ -703,11 +725,12 @@ theorem classify_sound (f : Facts) : (classify f).Sound (Holds f) (HoldsPartial 
             | true =>
               have hg := h ha
               simp only [Values.flagsGood, Bool.and_eq_false_iff, Bool.not_eq_false', Bool.not_eq_false] at hg
-              rcases hg with (((hg | hg) | hg) | hg) | hg
+              rcases hg with ((((hg | hg) | hg) | hg) | hg) | hg
               · exact Values.refutes_time_seconds _ hg hh.2
               · exact Values.refutes_struct_dropped _ hg hh.2
               · exact Values.refutes_body_nil _ hg hh.2
               · exact Values.refutes_empty_len_zero _ hg hh.2
               · exact Values.refutes_empty_neg_zero _ hg hh.2
+              · exact Values.refutes_void_keeps _ htab' hg hh.2
 
 end Hv.C22
